@@ -17,7 +17,7 @@ from c07_values import VALUES, ERRORS, Point, Dog
 def student_code():
     lines = ['from c07_values import Point, Dog\n']
     for i, v in enumerate(VALUES):
-        rep = 'float("nan")' if isinstance(v, float) and v != v else repr(v)
+        rep = 'float("%r")' % v if isinstance(v, float) and (v != v or v in (float('inf'), float('-inf'))) else repr(v)
         lines.append('def give_%d():\n    return %s\n' % (i, rep))
     for j, e in enumerate(ERRORS):
         lines.append('def fail_%d():\n    raise %s\n' % (j, e))
@@ -34,7 +34,8 @@ BIN = ['assert_equal', 'assert_not_equal', 'assert_less', 'assert_less_equal', '
 UN = ['assert_true', 'assert_false', 'assert_is_none', 'assert_is_not_none']
 INST = ['assert_is_instance', 'assert_not_is_instance']
 TYPES = {'int': int, 'float': float, 'bool': bool, 'str': str, 'list': list, 'tuple': tuple, 'dict': dict, 'set': set, 'None': None,
-         'list[int]': list[int], 'list[str]': list[str], 'set[int]': set[int], 'dict[str,int]': dict[str, int], 'tuple[int,str]': tuple[int, str], 'Dog': Dog, 'Point': Point, 'bytes': bytes}
+         'list[int]': list[int], 'list[str]': list[str], 'set[int]': set[int], 'dict[str,int]': dict[str, int], 'tuple[int,str]': tuple[int, str], 'tuple[str,int]': tuple[str, int], 'Dog': Dog, 'Point': Point, 'bytes': bytes,
+         "'list[int]'": 'list[int]', "'tuple[int, str]'": 'tuple[int, str]', "'int'": 'int'}
 CLASSES = {'int': int, 'float': float, 'str': str, 'list': list, 'bool': bool, 'dict': dict, 'tuple': tuple}
 
 
